@@ -83,4 +83,25 @@ enum class HugePagesPolicy
   Try     // Try huge pages, but fall back to normal pages if unavailable
 };
 
+#if defined(QUILL_VERIF)
+namespace detail
+{
+/** verification hook: when set, called at numbered scheduling points (see QUILL_VERIF_YIELD) */
+inline void (*verif_yield_hook)(int) = nullptr;
+} // namespace detail
+#endif
+
 QUILL_END_NAMESPACE
+
+#if defined(QUILL_VERIF)
+  #define QUILL_VERIF_YIELD(site)                                                                  \
+    do                                                                                             \
+    {                                                                                              \
+      if (::quill::detail::verif_yield_hook)                                                       \
+      {                                                                                            \
+        ::quill::detail::verif_yield_hook(site);                                                   \
+      }                                                                                            \
+    } while (0)
+#else
+  #define QUILL_VERIF_YIELD(site) (void)0
+#endif
